@@ -35,6 +35,12 @@ type StructSpec struct {
 	Fields      FieldGroup
 	Doc         string
 	Annotations Annotations
+
+	// expandingDefault is true while a constant of this struct type is
+	// having one of its unspecified fields filled in from the field's
+	// default value. It is used to detect default values that contain
+	// themselves.
+	expandingDefault bool
 }
 
 // compileStruct compiles a struct AST into a StructSpec.
